@@ -154,6 +154,25 @@ func c07(c *an.Ctx) {
 						o.FailAt(e, "processBinlog returns from inside the loop: later resources are not tested")
 					}
 				}
+				// and none before it: every update, whatever it carries (an undecodable
+				// event has a table and an error but no deltas), reaches the loop
+				reach := an.Reach(pb, nil, an.NewBlocker(h.Instrs[0]))
+				for _, e := range an.Exits(pb, false) {
+					if reach[e] {
+						o.FailAt(e, "processBinlog can return without testing the registered resources: some updates (for instance one that only carries a decode error) are dropped and the live queries on that table stay stale")
+					}
+				}
+				// every iteration asks shouldInvalidate
+				var asks []ssa.Instruction
+				for _, call := range an.Calls(pb, an.Mod(lsq, "dbResource", "shouldInvalidate")) {
+					if an.LoopHeaderOf(call) == h {
+						asks = append(asks, call)
+					}
+				}
+				body := h.Succs[0]
+				if len(asks) == 0 || (body.Instrs[0] != asks[0] && an.Reach(pb, body.Instrs[0], an.NewBlocker(asks...))[h.Instrs[0]]) {
+					o.FailAt(invs[0], "some registered resources are skipped without shouldInvalidate being asked")
+				}
 			}
 		}
 		si := c.NeedFunc(lsq, "(*dbResource).shouldInvalidate")
@@ -199,7 +218,42 @@ func c07(c *an.Ctx) {
 		if !okErr {
 			o.Fail(p.Pos(si.Pos()), "shouldInvalidate no longer invalidates when the update could not be decoded (update.err)")
 		}
-		// table mismatch is the only early false
+		// table mismatch is the only way around the error test and the scan of the deltas
+		{
+			blk := an.NewBlocker()
+			nErr, nTab := 0, 0
+			for _, nt := range an.NilTestsWhere(si, func(v ssa.Value) bool { return strings.HasSuffix(an.Expr(v), ".err") }) {
+				blk.Instr[nt.If] = true
+				nErr++
+			}
+			for _, b := range si.Blocks {
+				iff, ok := b.Instrs[len(b.Instrs)-1].(*ssa.If)
+				if !ok {
+					continue
+				}
+				bo, ok := iff.Cond.(*ssa.BinOp)
+				if !ok || (bo.Op != token.EQL && bo.Op != token.NEQ) {
+					continue
+				}
+				x, y := an.Expr(bo.X), an.Expr(bo.Y)
+				if strings.HasSuffix(x, ".table") && strings.HasSuffix(y, ".table") && x != y {
+					nTab++
+					if bo.Op == token.NEQ {
+						blk.AddEdge(b, b.Succs[0])
+					} else {
+						blk.AddEdge(b, b.Succs[1])
+					}
+				}
+			}
+			if nErr > 0 {
+				reach := an.Reach(si, nil, blk)
+				for _, e := range an.Exits(si, false) {
+					if reach[e] {
+						o.FailAt(e, "shouldInvalidate can answer for an update on its own table without looking at update.err: an undecodable event would not invalidate the query (%d table tests)", nTab)
+					}
+				}
+			}
+		}
 		for _, e := range an.Exits(si, false) {
 			if an.Expr(e.(*ssa.Return).Results[0]) == "false" && an.LoopHeaderOf(e) != nil {
 				o.FailAt(e, "shouldInvalidate returns false from inside the loop over deltas: later deltas are not tested")
@@ -257,6 +311,28 @@ func c07(c *an.Ctx) {
 		// success edge is fine too (it sends): we only look at paths from parse to the header avoiding sends
 		if an.Reach(fn, parse, blk)[h.Instrs[0]] {
 			o.FailAt(parse, "after parseBinlogRowsEvent the poll loop can continue with the next event without delivering anything (a decode error other than 'unknown table' / 'database closed' is dropped): live queries on that table keep stale rows")
+		}
+		// the consumer hands every received update to the tracker
+		consumer := false
+		for _, cl := range an.WithAnons(fn)[1:] {
+			calls := an.Calls(cl, an.Mod(lsq, "dbTracker", "processBinlog"))
+			if len(calls) == 0 {
+				continue
+			}
+			consumer = true
+			o.Site(calls[0])
+			ch := an.LoopHeaderOf(calls[0])
+			if ch == nil {
+				o.FailAt(calls[0], "the update consumer handles one update only")
+				continue
+			}
+			body := ch.Succs[0]
+			if body.Instrs[0] != calls[0] && an.Reach(cl, body.Instrs[0], an.NewBlocker(calls...))[ch.Instrs[0]] {
+				o.FailAt(calls[0], "the update consumer can take an update off the channel and go on to the next one without handing it to tracker.processBinlog")
+			}
+		}
+		if !consumer {
+			o.Fail(p.Pos(fn.Pos()), "updates sent on the channel are never handed to tracker.processBinlog")
 		}
 		// the error update carries the table
 		for _, l := range an.StructLits(fn, "update") {
